@@ -14,7 +14,10 @@ RULE = ("(curve, secret key, message, alteration): keys of the four curves (vali
         "sign succeeds for generic in {False, True}; verify accepts; an independent implementation (cryptography: "
         "Ed25519 / ECDSA over the Blake2b-256 digest; py_ecc pairing equation for BLS over the message) accepts; "
         "every altered triple is rejected; CHECK_SIGNATURE returns the same verdict. Non-trivial: message non-empty "
-        "and at least one alteration exercised. Distinct = distinct case.")
+        "and at least one alteration exercised. Volume sub-check: per curve (Ed25519, secp256k1, P-256) thousands of "
+        "consecutive messages under generated keys are signed and verified (pytezos and independent), so that rare "
+        "signature shapes (r or s with leading zero bytes, 1 in 128) occur; non-trivial there: the batch contained such a "
+        "signature. Distinct = distinct case.")
 
 
 def _key(curve, secret_hex):
@@ -117,7 +120,39 @@ def oracle(case):
         raise Violation("CHECK_SIGNATURE true for an altered triple (%s)" % what, case, "check_signature-altered:" + what)
 
 
+def oracle_bulk(case):
+    """One key, `n` consecutive messages: every signature verifies (pytezos and independent). Rare signature shapes
+    (an r or s component with leading zero bytes: 1 in 128 signatures) need volume rather than variety."""
+    curve = case["curve"]
+    key = _key(curve, case["secret"])
+    pub = key.public_point
+    short = 0
+    for i in range(case["start"], case["start"] + case["n"]):
+        msg = case["prefix"].encode() + str(i).encode()
+        try:
+            sig = key.sign(msg, generic=bool(i & 1))
+        except Exception as e:
+            raise Violation("sign raised %r for message #%d (%s key)" % (e, i, curve), dict(case, start=i, n=1), "bulk-sign-raise:" + curve)
+        dec = rc.tz_decode(sig)
+        if dec is None or len(dec[1]) != 64:
+            raise Violation("signature of message #%d is not 64 raw bytes: %r" % (i, sig), dict(case, start=i, n=1), "bulk-sig-form:" + curve)
+        raw = dec[1]
+        ok, err = _verify(key, sig, msg)
+        if not ok:
+            raise Violation("verify rejected the key's own signature over %r (%s key; raw r=%s… s=%s…): %r" % (
+                msg, curve, raw[:4].hex(), raw[32:36].hex(), err), dict(case, start=i, n=1), "bulk-verify-own:" + curve)
+        if not rc.verify_independent(curve, pub, msg, raw):
+            raise Violation("independent %s verifier rejects pytezos' signature over %r" % (curve, msg), dict(case, start=i, n=1),
+                            "bulk-independent-reject:" + curve)
+        if raw[0] == 0 or raw[32] == 0:
+            short += 1
+    return short
+
+
 def replay(case):
+    if case.get("mode") == "bulk":
+        oracle_bulk(case)
+        return
     oracle(case)
 
 
@@ -156,8 +191,24 @@ def _prop(case, stats):
                sample={k: (v if k != "secret" else v[:12] + "…") for k, v in case.items()})
 
 
+@st.composite
+def bulk_cases(draw, curve, n):
+    return {"mode": "bulk", "curve": curve, "secret": draw(gen_keys.secret(curve)).hex(), "prefix": draw(st.sampled_from(["m", "msg #", "x"])),
+            "start": draw(st.integers(0, 10 ** 6)), "n": n}
+
+
+def _prop_bulk(case, stats):
+    short = oracle_bulk(case)
+    stats.case(case, short > 0, "bulk:%s" % case["curve"], sample={k: (v if k != "secret" else v[:12] + "…") for k, v in case.items()})
+    stats.extra["bulk_signatures:" + case["curve"]] += case["n"]
+    stats.extra["bulk_signatures_with_leading_zero_component:" + case["curve"]] += short
+
+
 def run(h):
     sh = 8 if h.quick else 16
+    # volume: 16 shards x cases x n signatures per curve (p2 ~3 ms per sign+verify, the others ~0.2 ms)
+    for curve, n in (("p2", 150), ("sp", 400), ("ed", 400)):
+        h.run_given(lambda c=curve, k=n: bulk_cases(c, k), _prop_bulk, h.n(2, 40), shards=16, name="bulk-" + curve, shrink=False)
     h.run_given(lambda: cases(["ed", "sp", "p2"]), _prop, h.n(60, 2500), shards=sh, name="fast", shrink=False)
     # BLS: sign 0.1 s, verify 0.3-0.5 s, independent pairing check 0.5 s
     h.run_given(lambda: cases(["BL"]), _prop, h.n(2, 40), shards=sh, name="bls", shrink=False)
